@@ -10,7 +10,7 @@ use crate::util::json::J;
 use crate::util::{Cfg, Tier};
 
 pub fn d_hook() -> Duration {
-    mpd_client::verif_hooks::next_command_idle_timeout()
+    crate::sim::session::reidle_delay()
 }
 
 /// Case plan shared by C01/C04/C05: directed scenarios x variants first, then random ones.
@@ -107,7 +107,5 @@ pub fn coverage_floors(tier: Tier) -> Vec<(String, u64)> {
         ("P10_list_failure".into(), 5 * m),
         ("P11_reply_over_4096_bytes".into(), 5 * m),
         ("P12_call_at_instant_of_idle_reply_delivery".into(), 2 * m),
-        ("select_reply_branch_taken".into(), 10 * m),
-        ("select_command_branch_taken".into(), 10 * m),
     ]
 }
